@@ -48,7 +48,7 @@ def check(pid, tier):
     with core.Lock():
         # ---------------- static half: translator + theorems
         st = core.static_check(pid, tier, getattr(mod, "ARTEFACTS", None), getattr(mod, "PROPS_MODULE", None),
-                               getattr(mod, "PROPS_PATH", None))
+                               getattr(mod, "PROPS_PATH", None), getattr(mod, "EXTRA_PROPS", ()))
         # ---------------- dynamic half: correspondence
         ok_l, lean_exe, log_l = core.build_lean_driver()
         if not ok_l:
@@ -147,7 +147,12 @@ def check(pid, tier):
         for i in internal:
             print("INTERNAL-ERROR:", i, file=sys.stderr)
         if not violations:
-            return 2
+            # the correspondence could not be run at all (a driver no longer builds against /repo, a stage died): the property is
+            # no longer shown to hold on this tree, and no concrete failing input was found
+            path = core.write_replay(pid, dict(property=pid, tier=tier, kind="machinery", broken=[str(i)[:4000] for i in internal],
+                                                  note="the check could not be carried out on this tree: the named build or stage failed"))
+            print(f"VIOLATION property={pid} replay={path} no-failing-input-found")
+            return 1
     for path, suffix in violations[:20]:
         print(f"VIOLATION property={pid} replay={path}{suffix}")
     return 1 if violations else 0
@@ -157,11 +162,15 @@ def replay(pid, path):
     with open(path) as f:
         d = json.load(f)
     mod = load_prop(pid)
+    if d.get("kind") == "machinery":
+        print("the check could not be carried out when this was recorded:", *d.get("broken", []), sep="\n  ")
+        print("re-run `bin/check %s quick` on the tree in question" % pid)
+        return 1
     if d.get("kind") == "static":
         print("static failure recorded:", *d.get("broken", []), sep="\n  ")
         with core.Lock():
             st = core.static_check(pid, "quick", getattr(mod, "ARTEFACTS", None), getattr(mod, "PROPS_MODULE", None),
-                                   getattr(mod, "PROPS_PATH", None))
+                                   getattr(mod, "PROPS_PATH", None), getattr(mod, "EXTRA_PROPS", ()))
         print("static check now:", "ok" if st.ok else "FAILS")
         return 0 if st.ok else 1
     with core.Lock():
@@ -185,7 +194,13 @@ def main():
         return check(pid, tier)
     except Exception:
         traceback.print_exc()
-        return 2
+        try:
+            path = core.write_replay(pid, dict(property=pid, tier=tier, kind="machinery", broken=[traceback.format_exc()[-4000:]],
+                                                  note="the check raised an exception on this tree before reaching a verdict"))
+            print(f"VIOLATION property={pid} replay={path} no-failing-input-found")
+            return 1
+        except Exception:
+            return 2
 
 
 if __name__ == "__main__":
